@@ -151,16 +151,8 @@ def history(sc, rng, hn, ch, n, weights=None):
             st["nchunks"] += 1
         if hl.startswith("chunknext") and not st.get("iter"):
             continue
-        if hl.startswith("seek") and (st["fmt"] >> 16) & 0xFFF == 0x02 and st["fmt"] & 0xFFFF == 0x12 and st["mode"] == "w":
-            continue        # KF-C16-aiff-ima-seek-write: aiff_ima_seek calls the NULL decode_block of a writer
         if hl.startswith("chunkiter"):
             st["iter"] = True
-        if ml.startswith("dither w"):
-            # KF-C16-dither-twice: enabling write dither twice in a row makes dither_write_* call itself (stack overflow at the next write)
-            if ml == "dither w on 1" and st.get("wdither"):
-                continue
-            if ml.endswith(" 1"):
-                st["wdither"] = ml == "dither w on 1"
         sc.op(hl, ml)
         sc.peek(hn)
         sc.cls.add(ml.split()[0] + ("+" if ml.endswith(" 1") else "-" if ml.endswith(" 0") else ""))
